@@ -160,6 +160,11 @@ class Mod(object):
                 self.add('')
                 self.add('{}Returns:'.format(ind))
                 self.add('{}    int: one'.format(ind))
+            if not nosummary and D.chance(1, 4):
+                # a section whose tag has no body at all
+                self.add('')
+                self.add('{}{}'.format(ind, D.choice(['Note:', 'Raises:', 'Todo:', 'Args:'])))
+                self.features.add('empty_google_section')
             for b in range(D.choice([1, 2, 3, 1, 2, 6])):
                 if not (nosummary and b == 0):
                     self.add('')
@@ -320,12 +325,19 @@ class Mod(object):
             elif mk in ('prop', 'propdel'):
                 self.emit_func(mind, mn, cn, decos=('property',))
                 self.add('{}@{}.setter'.format(mind, mn))
+                if D.chance(1, 3):
+                    # a further attribute-style decorator between the accessor decorator and the def
+                    self.add('{}@abc.abstractmethod'.format(mind))
+                    self.features.add('setter_with_stacked_dotted_decorator')
                 self.add('{}def {}(self, v):'.format(mind, mn))
                 self.emit_docstring(mind + '    ', cn + '.setter', collect=False, layouts=['google', 'freeform'])
                 self.add('{}    pass'.format(mind))
                 self.features.add('mustnot:setter')
                 if mk == 'propdel':
                     self.add('{}@{}.deleter'.format(mind, mn))
+                    if D.chance(1, 3):
+                        self.add('{}@abc.abstractmethod'.format(mind))
+                        self.features.add('setter_with_stacked_dotted_decorator')
                     self.add('{}def {}(self):'.format(mind, mn))
                     self.emit_docstring(mind + '    ', cn + '.deleter', collect=False, layouts=['google', 'freeform'])
                     self.add('{}    pass'.format(mind))
@@ -394,6 +406,7 @@ def build_module(D, importable=True, fail_kinds=(None,), max_items=7, allow_asyn
     if D.bool():
         m.emit_docstring('', '__doc__', layouts=['google', 'freeform', 'prose', 'mixed'])
         m.features.add('module_docstring')
+    m.add('import abc')
     m.add('import functools')
     m.add('import os')
     m.add('from os.path import join')
